@@ -144,35 +144,124 @@ theorem loadTyped_hash (fix : Fix) (db : Db) (k : Bytes) (fs : List (Bytes × By
     upsertAll_nodup [] fs (by simpa [mkeys] using hnd), List.nil_append, lift_ok, expireOpt_put]
   simp [putEntry_fresh db ⟨k, .hash fs, dl⟩ hf, valueAllocs]
 
-theorem loadTyped_list (fix : Fix) (db : Db) (k : Bytes) (xs : List Bytes) (dl : Option Nat)
-    (hk : strOk k = true) (hv : valueWF (.list xs) = true) (hm : startsWithMarker (.list xs) = false)
+/-! ### lists and the escape rule -/
+
+@[simp] theorem typeByte_escValue (esc : Bool) (v : Value) : typeByte (escValue esc v) = typeByte v := by
+  cases v <;> rfl
+
+@[simp] theorem listItems_false (xs : List Bytes) : listItems false xs = xs := by
+  simp [listItems]
+
+@[simp] theorem escValue_false (v : Value) : escValue false v = v := by
+  cases v <;> simp [escValue]
+
+theorem listItems_of_not_needs (esc : Bool) (xs : List Bytes) (h : needsEscape xs = false) : listItems esc xs = xs := by
+  simp [listItems, h]
+
+theorem escape_ne_marker : ¬ escape = marker := by decide
+
+/-- the plain-list loop reads back what the writer wrote for `x :: xs` -/
+theorem loadPlainList_enc (db : Db) (k x : Bytes) (xs : List Bytes) (dl : Option Nat)
+    (hx : x.length < two32) (hall : ∀ y ∈ xs, y.length < two32) (hf : k ∉ keys db) (rest : Bytes) :
+    loadPlainList true db k dl (xs.length + 1) (encString x ++ (encStrings xs ++ rest)) =
+      .ok (k, db ++ [⟨k, .list (x :: xs), dl⟩]) rest (x.length :: lengths xs) := by
+  have hnone := (findKey_none_iff db k).mpr hf
+  have hfind := findKey_putEntry_same db ⟨k, .list [x], none⟩
+  simp only at hfind
+  have hge : xs.length + 1 ≥ 1 := by omega
+  unfold loadPlainList
+  simp only [hge, if_true]
+  rw [readString_encString x hx]
+  simp only [Res.bind_ok, rpush, Bool.not_true, Bool.false_eq_true, if_false, hnone, lift_ok, Nat.add_sub_cancel]
+  rw [readStrings_encStrings xs hall rest]
+  simp only [Res.bind_ok, rpushMore, hfind, putEntry_put_key, expireOpt_put, lift_ok]
+  simp [putEntry_fresh db ⟨k, .list (x :: xs), dl⟩ hf]
+
+/-- a list written WITHOUT an escape element whose first element is neither the marker nor (for a
+    loader that knows the rule) the escape string: the regular-list branch -/
+theorem loadTyped_list_plain (fix : Fix) (db : Db) (k x : Bytes) (xs : List Bytes) (dl : Option Nat)
+    (hk : strOk k = true) (hv : valueWF (.list (x :: xs)) = true) (hm : ¬ x = marker)
+    (he : ¬ (fix.listEscape = true ∧ x = escape)) (hf : k ∉ keys db) (rest : Bytes) :
+    loadTyped fix true db 1 dl (encString k ++ (encValue (.list (x :: xs)) ++ rest)) =
+      .ok (k, db ++ [⟨k, .list (x :: xs), dl⟩]) rest (k.length :: valueAllocs (.list (x :: xs))) := by
+  simp [strOk, valueWF] at hk hv
+  obtain ⟨hlen, hx, hall⟩ := hv
+  have hnone := (findKey_none_iff db k).mpr hf
+  have hfind := findKey_putEntry_same db ⟨k, .list [x], none⟩
+  simp only at hfind
+  unfold loadTyped
+  simp only [encValue, List.append_assoc, encStrings, List.flatMap_cons]
+  rw [readString_encString k hk]
+  simp only [Res.bind_ok, Nat.reduceEqDiff, if_false, if_true, false_or]
+  rw [readLen_encLen (x :: xs).length (by simpa using hlen)]
+  have hge : (x :: xs).length ≥ 1 := by simp
+  simp only [Res.bind_ok, hge, if_true]
+  rw [readString_encString x hx]
+  simp only [Res.bind_ok, hm, he, if_false, rpush, Bool.not_true, Bool.false_eq_true, hnone, lift_ok,
+    List.length_cons, Nat.add_sub_cancel]
+  have := readStrings_encStrings xs hall rest
+  simp only [encStrings] at this
+  rw [this]
+  simp only [Res.bind_ok, rpushMore, hfind, putEntry_put_key, expireOpt_put, lift_ok]
+  simp [putEntry_fresh db ⟨k, .list (x :: xs), dl⟩ hf, valueAllocs, lengths]
+
+/-- a list written WITH the escape element, read by a loader that knows the rule: the element is
+    dropped and `x :: xs` is a plain list whatever `x` is -/
+theorem loadTyped_list_escaped (fix : Fix) (hfix : fix.listEscape = true) (db : Db) (k x : Bytes) (xs : List Bytes)
+    (dl : Option Nat) (hk : strOk k = true) (hv : valueWF (.list (escape :: x :: xs)) = true)
     (hf : k ∉ keys db) (rest : Bytes) :
-    loadTyped fix true db 1 dl (encString k ++ (encValue (.list xs) ++ rest)) =
-      .ok (k, db ++ [⟨k, .list xs, dl⟩]) rest (k.length :: valueAllocs (.list xs)) := by
+    loadTyped fix true db 1 dl (encString k ++ (encValue (.list (escape :: x :: xs)) ++ rest)) =
+      .ok (k, db ++ [⟨k, .list (x :: xs), dl⟩]) rest (k.length :: valueAllocs (.list (escape :: x :: xs))) := by
+  simp [strOk, valueWF] at hk hv
+  obtain ⟨hlen, _, hx, hall⟩ := hv
+  have helen : escape.length < two32 := by decide
+  unfold loadTyped
+  simp only [encValue, List.append_assoc, encStrings, List.flatMap_cons]
+  rw [readString_encString k hk]
+  simp only [Res.bind_ok, Nat.reduceEqDiff, if_false, if_true, false_or]
+  rw [readLen_encLen (escape :: x :: xs).length (by simpa using hlen)]
+  have hge : (escape :: x :: xs).length ≥ 1 := by simp
+  simp only [Res.bind_ok, hge, if_true]
+  rw [readString_encString escape helen]
+  simp only [Res.bind_ok, escape_ne_marker, hfix, and_self, if_false, if_true, List.length_cons, Nat.add_sub_cancel]
+  have := loadPlainList_enc db k x xs dl hx hall hf rest
+  simp only [encStrings] at this
+  rw [this]
+  simp [valueAllocs, lengths]
+
+/-- EVERY well-formed list, written by a writer and read by a loader that agree on the escape rule
+    (`fix.listEscape` on both sides).  Without the rule the marker-headed lists are excluded. -/
+theorem loadTyped_list (fix : Fix) (db : Db) (k : Bytes) (xs : List Bytes) (dl : Option Nat)
+    (hk : strOk k = true) (hv : valueWF (escValue fix.listEscape (.list xs)) = true)
+    (hm : startsWithMarker (.list xs) = false ∨ fix.listEscape = true)
+    (hf : k ∉ keys db) (rest : Bytes) :
+    loadTyped fix true db 1 dl (encString k ++ (saveValue fix.listEscape (.list xs) ++ rest)) =
+      .ok (k, db ++ [⟨k, .list xs, dl⟩]) rest (k.length :: valueAllocs (escValue fix.listEscape (.list xs))) := by
   cases xs with
-  | nil => simp [valueWF] at hv
+  | nil => simp [escValue, listItems, needsEscape, valueWF] at hv
   | cons x xs =>
-    simp [strOk, valueWF] at hk hv
-    simp [startsWithMarker] at hm
-    obtain ⟨hlen, hx, hall⟩ := hv
-    have hnone := (findKey_none_iff db k).mpr hf
-    have hfind := findKey_putEntry_same db ⟨k, .list [x], none⟩
-    simp only at hfind
-    unfold loadTyped
-    simp only [encValue, List.append_assoc, encStrings, List.flatMap_cons]
-    rw [readString_encString k hk]
-    simp only [Res.bind_ok, Nat.reduceEqDiff, if_false, if_true, false_or]
-    rw [readLen_encLen (x :: xs).length (by simpa using hlen)]
-    have hge : (x :: xs).length ≥ 1 := by simp
-    simp only [Res.bind_ok, hge, if_true]
-    rw [readString_encString x hx]
-    simp only [Res.bind_ok, hm, if_false, rpush, Bool.not_true, Bool.false_eq_true, hnone, lift_ok,
-      List.length_cons, Nat.add_sub_cancel]
-    have := readStrings_encStrings xs hall rest
-    simp only [encStrings] at this
-    rw [this]
-    simp only [Res.bind_ok, rpushMore, hfind, putEntry_put_key, expireOpt_put, lift_ok]
-    simp [putEntry_fresh db ⟨k, .list (x :: xs), dl⟩ hf, valueAllocs, lengths]
+    unfold saveValue
+    cases hE : fix.listEscape with
+    | false =>
+      rw [hE] at hv
+      have hm' : ¬ x = marker := by
+        cases hm with
+        | inl h => simpa [startsWithMarker] using h
+        | inr h => rw [hE] at h; cases h
+      simp only [escValue_false] at hv ⊢
+      exact loadTyped_list_plain fix db k x xs dl hk hv hm' (by simp [hE]) hf rest
+    | true =>
+      rw [hE] at hv
+      cases hN : needsEscape (x :: xs) with
+      | true =>
+        have hi : listItems true (x :: xs) = escape :: x :: xs := by simp [listItems, hN]
+        simp only [escValue, hi] at hv ⊢
+        exact loadTyped_list_escaped fix hE db k x xs dl hk hv hf rest
+      | false =>
+        have hi : listItems true (x :: xs) = x :: xs := listItems_of_not_needs true _ hN
+        simp only [escValue, hi] at hv ⊢
+        simp [needsEscape] at hN
+        exact loadTyped_list_plain fix db k x xs dl hk hv hN.1 (by simp [hN.2]) hf rest
 
 theorem loadTyped_zset (fix : Fix) (db : Db) (k : Bytes) (zs : List (Bytes × Nat)) (dl : Option Nat)
     (hk : strOk k = true) (hv : valueWF (.zset zs) = true) (hf : k ∉ keys db) (rest : Bytes) :
@@ -354,14 +443,16 @@ theorem loadTyped_stream (fix : Fix) (db : Db) (k : Bytes) (es : List SEntry) (d
 
 /-- `read_key_value_with_type ∘ write_key_value`: loading `key ++ value` into a database without
     that key appends exactly `(key, value, deadline)`, consumes exactly the pair and allocates
-    exactly the string lengths — for every well-formed value that is not a marker-headed list and
-    not an empty stream (the latter allowed once the loader keeps empty streams). -/
+    exactly the string lengths — for every value that is well-formed as written, that is not a
+    marker-headed list (allowed once writer and loader apply the escape rule) and not an empty stream
+    (allowed once the loader keeps empty streams). -/
 theorem loadTyped_encKV (fix : Fix) (db : Db) (k : Bytes) (v : Value) (dl : Option Nat)
-    (hk : strOk k = true) (hv : valueWF v = true) (hm : startsWithMarker v = false)
+    (hk : strOk k = true) (hv : valueWF (escValue fix.listEscape v) = true)
+    (hm : startsWithMarker v = false ∨ fix.listEscape = true)
     (hs : isEmptyStream v = false ∨ fix.keepEmptyStream = true)
     (hf : k ∉ keys db) (rest : Bytes) :
-    loadTyped fix true db (typeByte v) dl (encString k ++ (encValue v ++ rest)) =
-      .ok (k, db ++ [⟨k, v, dl⟩]) rest (k.length :: valueAllocs v) := by
+    loadTyped fix true db (typeByte v) dl (encString k ++ (saveValue fix.listEscape v ++ rest)) =
+      .ok (k, db ++ [⟨k, v, dl⟩]) rest (k.length :: valueAllocs (escValue fix.listEscape v)) := by
   cases v with
   | str b => exact loadTyped_str fix db k b dl hk hv hf rest
   | list xs => exact loadTyped_list fix db k xs dl hk hv hm hf rest
